@@ -8,6 +8,7 @@ import (
 	"fmt"
 	"go/token"
 	"go/types"
+	"strconv"
 	"strings"
 
 	"golang.org/x/tools/go/ssa"
@@ -387,7 +388,8 @@ func init() {
 			return res
 		}
 		nonNil := c.Not(c.Eq(res.Tag, c.Int(0)))
-		for name, m := range ip.Members {
+		for _, name := range sortedStrKeys(ip.Members) {
+			m := ip.Members[name]
 			g, isG := m.(*ssa.Global)
 			if !isG || !strings.HasPrefix(name, "LayerType") {
 				continue
@@ -555,7 +557,40 @@ func (e *Encoder) restoreBindings(op *SVal, pre *State) {
 
 func init() {
 	// real-valued math functions: uninterpreted (equal arguments give equal results)
-	for _, n := range []string{"Pow", "Log", "Log10", "Log2", "Exp", "Exp2", "Sqrt"} {
+	// math.Pow with a constant small integer exponent is the product it stands for; with exponent 1/3
+	// it is the cube root for non-negative arguments only (math.Pow returns NaN for a negative base
+	// and a non-integer exponent); math.Cbrt is the real cube root.
+	nativeModels["math.Pow"] = func(e *Encoder, fr *frame, args []*SVal, ci ssa.CallInstruction, resT types.Type) *SVal {
+		c := e.c
+		x, y := args[0].T, args[1].T
+		mk := func(t *Term) *SVal { return &SVal{K: KScalar, Typ: types.Typ[types.Float64], T: t} }
+		yv, isLit := realLitValue(y)
+		switch {
+		case isLit && yv == 2:
+			return mk(c.RealBin("*", x, x))
+		case isLit && yv == 3:
+			return mk(c.RealBin("*", x, c.RealBin("*", x, x)))
+		case isLit && yv == -1:
+			e.trusted["math.Pow(x, -1) is 1/x (float64 treated as real arithmetic)"] = true
+			return mk(c.RealBin("/", c.RealLit("1.0"), x))
+		}
+		e.trusted["math.Pow is an uninterpreted real function, except for the constant exponents 2, 3, -1 (products / quotient) and 1/3 (cube root of a non-negative base) (float64 treated as real arithmetic)"] = true
+		r := c.App("math.Pow", RealS, x, y)
+		if isLit && yv == 1./3 {
+			e.assumeFact(c.Implies(c.RealCmp(">=", x, c.RealLit("0.0")), c.Eq(c.RealBin("*", r, c.RealBin("*", r, r)), x)))
+		}
+		return mk(r)
+	}
+	pureNative["math.Pow"] = true
+	nativeModels["math.Cbrt"] = func(e *Encoder, fr *frame, args []*SVal, ci ssa.CallInstruction, resT types.Type) *SVal {
+		c := e.c
+		e.trusted["math.Cbrt(x) is the real cube root: Cbrt(x)^3 == x (float64 treated as real arithmetic)"] = true
+		r := c.App("math.Cbrt", RealS, args[0].T)
+		e.assumeFact(c.Eq(c.RealBin("*", r, c.RealBin("*", r, r)), args[0].T))
+		return &SVal{K: KScalar, Typ: types.Typ[types.Float64], T: r}
+	}
+	pureNative["math.Cbrt"] = true
+	for _, n := range []string{"Log", "Log10", "Log2", "Exp", "Exp2", "Sqrt"} {
 		n := n
 		nativeModels["math."+n] = func(e *Encoder, fr *frame, args []*SVal, ci ssa.CallInstruction, resT types.Type) *SVal {
 			e.trusted["math."+n+" is an uninterpreted real function (float64 treated as real arithmetic)"] = true
@@ -639,3 +674,22 @@ func (t *Term) String0(c *Ctx) string {
 }
 
 var _ = fmt.Sprintf
+
+// realLitValue: the value of a real literal term as realLit writes it.
+func realLitValue(y *Term) (float64, bool) {
+	if y.Op != "real" {
+		return 0, false
+	}
+	n, neg := y.Name, false
+	if strings.HasPrefix(n, "(- ") && strings.HasSuffix(n, ")") {
+		n, neg = n[3:len(n)-1], true
+	}
+	f, err := strconv.ParseFloat(n, 64)
+	if err != nil {
+		return 0, false
+	}
+	if neg {
+		f = -f
+	}
+	return f, true
+}
